@@ -154,6 +154,20 @@ pub fn combinator_schemas() -> Vec<Value> {
         json!({"type": "null"}),
         json!({}),
         json!(true),
+        // enum / const intersected with sibling keywords
+        json!({"type": "string", "enum": ["é", "ab", "x", "éé"], "minLength": 2}),
+        json!({"enum": ["é", "ab", "abc", "😀", "😀😀"], "maxLength": 1}),
+        json!({"enum": ["é", "ab", "abc", 7], "minLength": 2, "maxLength": 2}),
+        json!({"const": "éa", "minLength": 2}),
+        json!({"allOf": [{"enum": ["€", "ab", "x"]}, {"type": "string", "minLength": 2}]}),
+        json!({"enum": [1, 5, 10, "a", 2.5], "minimum": 3}),
+        json!({"enum": [1.5, 2, 3, "3"], "type": "integer"}),
+        json!({"enum": [2, 4, 9, 12], "multipleOf": 3, "maximum": 10}),
+        json!({"enum": ["2024-02-30", "2024-02-28", "2023-02-29"], "format": "date"}),
+        json!({"enum": ["ab", "b", "ba"], "pattern": "^a"}),
+        json!({"enum": [[1], [1, 2], []], "minItems": 1, "maxItems": 1}),
+        json!({"enum": [{"a": 1}, {"a": "x"}, {}], "required": ["a"], "properties": {"a": {"type": "integer"}}}),
+        json!({"type": ["string", "integer"], "enum": ["é", 1, 22, "ab"], "minLength": 2, "minimum": 5}),
     ]
 }
 
